@@ -22,7 +22,7 @@ EXTRA_IMPORTS = dispenv.DISP_IMPORTS + 'From PJ Require Import Model.Cache.\n'
 RULE = ('(a) histories of length 1..2 (quick) / 1..3 (thorough) over a request corpus followed by a probe, on the standard configuration '
         '(compared with the probe on a fresh dispatcher AND with the stateless dispatcher model) and on a rich configuration - the same function '
         'registered twice with different context designations, parameterless methods with and without a context, two same-named '
-        'functions under one PydanticValidator, two functions under it whose signatures differ only in equal-comparing defaults (1 / True), a JsonSchemaValidator, a class-based view with context, methods that raise, generic and per-code error handlers - where every ordered pair / triple '
+        'functions under one PydanticValidator, two functions under it whose signatures differ only in equal-comparing defaults (1 / True), a JsonSchemaValidator (one method with a format checker, one without), a class-based view with context, methods that raise, generic and per-code error handlers - where every ordered pair / triple '
         'of requests is replayed; both dispatchers. (b) N in {1, 10, 300} (quick) / {1, 10, 1000} (thorough) dispatches with a fresh '
         'context object each, for function methods, view methods, each validator and FAILING requests (method raises / protocol error / unknown method / schema violation): growth of the signature / schema memo tables and '
         'weak references to the contexts after gc.collect(). (c) thread pools of 2, 8, 16 threads serving an interleaved corpus vs serving '
@@ -90,6 +90,18 @@ def rich_dispatcher(is_async):
     def sized(n, tag='t'):
         return ['sized', n, tag]
 
+    # two methods on the one JsonSchemaValidator with different method-level argument SETS (one brings a format checker)
+    import jsonschema as _js
+    MAIL = {'type': 'object', 'properties': {'to': {'type': 'string', 'format': 'ipv4'}}, 'required': ['to']}
+
+    @jsv.validate(schema=MAIL, format_checker=_js.FormatChecker())
+    def register(to):
+        return ['register', to]
+
+    @jsv.validate(schema=MAIL)
+    def note(to):
+        return ['note', to]
+
     class View(ViewMixin):
         def __init__(self, ctx):
             self.ctx = ctx
@@ -107,6 +119,8 @@ def rich_dispatcher(is_async):
     d.add(mk_get('int'), name='user.get')
     d.add(mk_get('str'), name='doc.get')
     d.add(sized)
+    d.add(register)
+    d.add(note)
     d.add(opt_a, name='opt.a')
     d.add(opt_b, name='opt.b')
     reg = MethodRegistry()
@@ -125,6 +139,7 @@ RICH_CORPUS = [
     {'method': 'v.show', 'params': [1]}, {'method': 'v.show'}, {'method': 'nosuch'}, {'method': 'ping', 'params': {}},
     {'method': 'boom'}, {'method': 'boom', 'params': [1]}, {'method': 'perr'}, {'method': 'perr', 'params': [1]},
     {'method': 'opt.a'}, {'method': 'opt.b'}, {'method': 'opt.b', 'params': [2]},
+    {'method': 'register', 'params': ['10.0.0.1']}, {'method': 'register', 'params': ['somebody']}, {'method': 'note', 'params': ['somebody']},
 ]
 
 
